@@ -36,8 +36,10 @@ CONSTANTS
                 \* to their end without interruption (reset / checkpoint / clone followed by a fixed continuation)
 
 VARIABLES inst, blobs, ops, obs, pos,
-          rest    \* the part of the script not yet executed
-vars == <<inst, blobs, ops, obs, pos, rest>>
+          rest,   \* the part of the script not yet executed
+          env     \* the model's alphabets and continuations, evaluated once (TLC re-evaluates an overridden constant at
+                  \* every reference; looking a variable up is free)
+vars == <<inst, blobs, ops, obs, pos, rest, env>>
 
 Absent == [kind |-> "none"]
 Present(i) == inst[i].kind # "none"
@@ -71,12 +73,16 @@ Init ==
     /\ obs = [k \in 1..Cardinality(Initial) |-> NoObs]
     /\ pos = Cardinality(Initial)
     /\ rest = IF UseScript THEN Script ELSE <<>>
+    /\ env = [inputs |-> {[ty |-> "s", x |-> k] : k \in SAlpha} \cup {[ty |-> "b"] @@ b : b \in BAlpha},
+              conts |-> Conts, toks |-> Toks, resets |-> Resets, clones |-> Clones, saves |-> Saves, restores |-> Restores,
+              news |-> News, free |-> FreeIds]
 
 \* append to the behaviour (or keep only the last op when histories are not kept)
 Log(op, ob) ==
     /\ ops' = IF KeepHistory THEN Append(ops, op) ELSE <<op>>
     /\ obs' = IF KeepHistory THEN Append(obs, ob) ELSE <<ob>>
     /\ pos' = pos + 1
+    /\ env' = env
 
 ---------------------------------------------------------------------------
 InToOp(i, in) == IF in.ty = "s" THEN [op |-> "s", i |-> i, x |-> in.x]
@@ -157,7 +163,6 @@ New(i) ==
     /\ Log(NewOp(i), NoObs)
     /\ UNCHANGED blobs
 
-Inputs == {[ty |-> "s", x |-> k] : k \in SAlpha} \cup {[ty |-> "b"] @@ b : b \in BAlpha}
 
 Drop(i) ==
     /\ Present(i)
@@ -180,18 +185,18 @@ Do(o) ==
 Scripted == rest # <<>> /\ Do(Head(rest)) /\ rest' = Tail(rest)
 
 Free ==
-    \/ \E i \in FreeIds, in \in Inputs : Feed(i, in)
-    \/ \E i \in FreeIds, tok \in Toks : Tok(i, tok)
-    \/ \E i \in Resets : Reset(i)
-    \/ \E pr \in Clones : Clone(pr[1], pr[2])
-    \/ \E pr \in Saves : Save(pr[1], pr[2])
-    \/ \E pr \in Restores : Restore(pr[1], pr[2])
-    \/ \E i \in News : New(i)
+    \/ \E i \in env.free, in \in env.inputs : Feed(i, in)
+    \/ \E i \in env.free, tok \in env.toks : Tok(i, tok)
+    \/ \E i \in env.resets : Reset(i)
+    \/ \E pr \in env.clones : Clone(pr[1], pr[2])
+    \/ \E pr \in env.saves : Save(pr[1], pr[2])
+    \/ \E pr \in env.restores : Restore(pr[1], pr[2])
+    \/ \E i \in env.news : New(i)
 
 Next == IF rest # <<>> THEN Scripted
         ELSE IF UseScript THEN FALSE
         ELSE \/ Free /\ rest' = <<>>
-             \/ \E c \in Conts : Do(Head(c)) /\ rest' = Tail(c)
+             \/ \E c \in env.conts : Do(Head(c)) /\ rest' = Tail(c)
 
 Spec == Init /\ [][Next]_vars
 
